@@ -42,7 +42,7 @@ the inner storage equivalent to applying the accepted operations in acceptance o
 theorem drain_eq_sequential {I : Inner σ Op Out} {P : Policy σ Op} {R : σ → σ → Prop} (h : Sound I P R)
     (t0 : σ) (evs : List (Event Op)) :
     R (drain I (run I P { inner := t0, queue := [] } evs).1)
-      (seqState I t0 ((run I P { inner := t0, queue := [] } evs).2.map (·.1))) := by
+      (seqState I t0 (acceptedOps (run I P { inner := t0, queue := [] } evs).2)) := by
   rw [drain_eq_pending]
   exact (run_sound h evs { inner := t0, queue := [] } t0 (h.refl _)).2
 
@@ -50,8 +50,43 @@ theorem drain_eq_sequential {I : Inner σ Op Out} {P : Policy σ Op} {R : σ →
 theorem drain_eq_sequential_eq {I : Inner σ Op Out} {P : Policy σ Op} (h : Sound I P Eq)
     (t0 : σ) (evs : List (Event Op)) :
     drain I (run I P { inner := t0, queue := [] } evs).1 =
-      seqState I t0 ((run I P { inner := t0, queue := [] } evs).2.map (·.1)) :=
+      seqState I t0 (acceptedOps (run I P { inner := t0, queue := [] } evs).2) :=
   drain_eq_sequential h t0 evs
+
+/-- **rejected_op_leaves_outbox_unchanged.** An operation the outbox layer answers with its own
+error (`Policy.rejects`: e.g. `BadDigest` for a put whose supplied checksum does not match the
+body) is not accepted, is answered with the rejection, adds no entry to the table — on the queue
+path the state is literally unchanged, on the write-through path at most entries that were already
+queued have been flushed while the caller waited — and the replayed table (hence everything that
+will ever reach the inner storage) is exactly what it was. No hypothesis on the inner storage. -/
+theorem rejected_op_leaves_outbox_unchanged (I : Inner σ Op Out) (P : Policy σ Op) (s : St σ Op) (op : Op)
+    (hr : P.rejects op = true) :
+    (accept I P s op).2.2.2 = false ∧ (accept I P s op).2.1 = I.rejected op ∧
+    pending I (accept I P s op).1 = pending I s ∧
+    (∃ m, (accept I P s op).1.queue = s.queue.drop m) ∧
+    (P.queues s.inner op = true → (accept I P s op).1 = s) :=
+  rejected_unchanged I P s op hr
+
+/-- Convergence is over the accepted subsequence only: rejected operations never appear in it. -/
+theorem acceptedOps_excludes_rejected (I : Inner σ Op Out) (P : Policy σ Op) (s : St σ Op)
+    (evs : List (Event Op)) : ∀ op ∈ acceptedOps (run I P s evs).2, P.rejects op = false := by
+  induction evs generalizing s with
+  | nil => intro op h; simp [run, acceptedOps] at h
+  | cons ev evs ih =>
+    cases ev with
+    | flush => simpa [run] using ih (flushN I 1 s)
+    | accept a =>
+      intro op h
+      simp only [run, acceptedOps, List.filter_cons] at h
+      by_cases hacc : (accept I P s a).2.2.2 = true
+      · simp only [hacc, if_true, List.map_cons, List.mem_cons] at h
+        rcases h with rfl | h
+        · cases hr : P.rejects op with
+          | false => rfl
+          | true => have := (rejected_unchanged I P s op hr).1; rw [this] at hacc; cases hacc
+        · exact ih _ op (by simpa [acceptedOps] using h)
+      · simp only [hacc] at h
+        exact ih _ op (by simpa [acceptedOps] using h)
 
 -- ================================================================ non-vacuity: a toy inner storage
 
@@ -74,12 +109,15 @@ def step (s : S) : O → S × Option Nat
 def inner : Inner S O (Option Nat) :=
   { step := step
     addr := fun | .set b k _ => (b, k) | .get b k => (b, k)
-    ack := fun _ => none }
+    ack := fun _ => none
+    rejected := fun _ => none }
 
-/-- writes queue, reads wait for their key (and the bucket's lifecycle entries) -/
+/-- writes queue, reads wait for their key (and the bucket's lifecycle entries); writing the
+value 13 is rejected by the outbox layer -/
 def policy : Policy S O :=
   { queues := fun _ op => match op with | .set .. => true | .get .. => false
-    scopes := fun | .set .. => [] | .get b k => [.keyAndGlobal b k] }
+    scopes := fun | .set .. => [] | .get b k => [.keyAndGlobal b k]
+    rejects := fun | .set _ _ v => v == 13 | .get .. => false }
 
 def R (s t : S) : Prop := ∀ x, lookup s x = lookup t x
 
@@ -117,8 +155,9 @@ theorem sound : Sound inner policy R where
 /-- The hypothesis of the two theorems is met by a concrete inner storage, and the theorems say
 something there: a read after a queued write returns the written value, at every flush point. -/
 example : (run inner policy { inner := [], queue := [] }
-    [.accept (.set "b" "k" 1), .accept (.set "b" "j" 2), .accept (.get "b" "k"), .flush, .accept (.get "b" "j")]).2.map (·.2.1)
-    = [none, none, some 1, some 2] := by
+    [.accept (.set "b" "k" 1), .accept (.set "b" "k" 13), .accept (.set "b" "j" 2), .accept (.get "b" "k"), .flush,
+     .accept (.get "b" "j")]).2.map (fun e => (e.2.1, e.2.2.2))
+    = [(none, true), (none, false), (none, true), (some 1, true), (some 2, true)] := by
   decide
 
 end Toy
@@ -197,8 +236,8 @@ open Pithos.S3 in
 versioning was enabled and becomes a ULID version, whereas applying the accepted operations in
 acceptance order stores the null version. (With the code's own table both agree.) -/
 theorem suspected_breaks_drain :
-    let evs : List (Event S3.Op) :=
-      [.accept (.mkb "b"), .flush, .accept (.put "b" "k" [1] {} false .none), .accept (.setVer "b" .enabled)]
+    let evs : List (Event COp) :=
+      [.accept (ok (.mkb "b")), .flush, .accept (ok (.put "b" "k" [1] {} false .none)), .accept (ok (.setVer "b" .enabled))]
     let vidAfter (tbl : List Method) : Option (Option Nat) :=
       match (S3.step Quirks.code (drain (innerS3 Quirks.code)
               (run (innerS3 Quirks.code) (policyS3 tbl) { inner := {}, queue := [] } evs).1) (.get "b" "k" none)).2 with
@@ -206,11 +245,31 @@ theorem suspected_breaks_drain :
       | _ => none
     let vidSeq : Option (Option Nat) :=
       match (S3.step Quirks.code (seqState (innerS3 Quirks.code) {}
-              [.mkb "b", .put "b" "k" [1] {} false .none, .setVer "b" .enabled]) (.get "b" "k" none)).2 with
+              [ok (.mkb "b"), ok (.put "b" "k" [1] {} false .none), ok (.setVer "b" .enabled)]) (.get "b" "k" none)).2 with
       | .obj v => some v.vid
       | _ => none
     vidSeq = some none ∧ vidAfter suspectedTable = some (some 0) ∧
     vidAfter Pithos.Gen.OutboxStorage.methods = some none := by
+  decide
+
+open Pithos.S3 in
+/-- What "errors leave no trace" excludes, on the S3 model: a put rejected by the outbox layer
+(`bad`) is not accepted and the drained storage holds the accepted body; a variant that leaves the
+rejected put's entry in the table (validation after the transaction has committed) replays it, and
+the drained storage then holds a body that was never accepted. -/
+theorem leaky_rejection_breaks_drain :
+    let I := innerS3 Quirks.code
+    let r := run I policyCode { inner := {}, queue := [] }
+      [.accept (ok (.mkb "b")), .accept (ok (.put "b" "k" [1] {} false .none)),
+       .accept { op := .put "b" "k" [2] {} false .none, bad := true }]
+    let body (t : S3.State) : Option Bytes :=
+      match (S3.step Quirks.code t (.get "b" "k" none)).2 with
+      | .obj v => some v.body
+      | _ => none
+    r.2.map (·.2.2.2) = [true, true, false] ∧
+    body (drain I r.1) = some [1] ∧
+    body (seqState I {} (acceptedOps r.2)) = some [1] ∧
+    body (drain I { r.1 with queue := r.1.queue ++ [ok (.put "b" "k" [2] {} false .none)] }) = some [2] := by
   decide
 
 end Pithos.C21
